@@ -24,7 +24,7 @@ func TestMain(m *testing.M) {
 
 var bias = ls.Bias{
 	Weights:   map[ls.OpKind]int{ls.OpPush: 8, ls.OpSpawnPush: 5, ls.OpOpen: 3, ls.OpSettle: 5, ls.OpAdvance: 2, ls.OpStatus: 3, ls.OpPollers: 3, ls.OpFreeze: 1, ls.OpThaw: 1, ls.OpCancel: 1},
-	TaskKinds: []ls.TaskKind{ls.TInstant, ls.TGated, ls.TSleep, ls.TPanic, ls.TPanic, ls.TGatedPanic, ls.TGatedPanic, ls.TGatedPanic},
+	TaskKinds: []ls.TaskKind{ls.TInstant, ls.TGated, ls.TSleep, ls.TPanic, ls.TPanic, ls.TGatedPanic, ls.TGatedPanic, ls.TGatedPanic, ls.TNil},
 	MaxOps:    50,
 	Cancel:    true,
 	Deadline:  5,
